@@ -1253,6 +1253,9 @@ func (e *SpecEnv) quant(kind string, args []ast.Expr) Val {
 		if guard != "" {
 			inner = fmt.Sprintf("(and %s %s)", guard, body)
 		}
+		if pat != "" {
+			inner = fmt.Sprintf("(! %s%s)", inner, pat)
+		}
 		t = fmt.Sprintf("(exists ((%s %s)) %s)", qn, sort, inner)
 	}
 	return Scalar{t, SBool, boolT}
